@@ -687,6 +687,139 @@ def mon_C09(case):
     return out
 
 
+# ------------------------------------------------------------------------------------------------ C04 (layers 2-4)
+
+def req_ids(spec, last):
+    """ids asked for by a delmsg range list, clipped to existing ids; None = malformed"""
+    ids = set()
+    if spec == "-":
+        return None
+    for p in spec.split(","):
+        lh = p.split(":")
+        lo = int(lh[0])
+        hi = int(lh[1]) if len(lh) > 1 else 0
+        if lo > last or lo < 0 or hi < 0 or (hi > 0 and lo > hi) or (lo == 0 and hi == 0):
+            return None
+        if hi == 0 or hi == lo:
+            ids.add(lo)
+        else:
+            ids.update(range(lo, min(hi, last + 1)))
+    return ids
+
+
+def mon_C04(case):
+    out = []
+    for i, (o, ln) in enumerate(zip(case.ops, case.lines)):
+        w = o.split(" ")
+        if ln.plain is not None or w[0] not in ("get", "delmsg") or len(w) < 4:
+            continue
+        pre = prev_state(case, i)
+        act = case.actor(w)
+        if pre is None or act is None:
+            continue
+        t = w[2]
+        c, row = pre.cache.get(t), pre.store.get(t)
+        attached = t in pre.sess.get(w[1], set())
+        datas = [(sid, f) for sid, f in ln.frames if f.startswith("data ")]
+        for sid, f in datas:
+            if f.split(" ")[1] != t:
+                out.append((i, f"C04 a query about {t} returned a message of {f.split(' ')[1]}"))
+        if not attached or c is None or row is None:
+            if datas:
+                out.append((i, f"C04 history of {t} was served to a session which is not attached"))
+            continue
+        u = c["users"].get(act[0])
+        m = eff(u["want"], u["given"]) if u and not u["deleted"] else ""
+        kv = _kv(w[4:])
+        if w[0] == "get" and w[3] == "data":
+            if not has(m, "R"):
+                if datas:
+                    out.append((i, f"C04 history of {t} was served to {act[0]} who has no read permission"))
+                continue
+            if ln.calls != ["MessageGetAll"] or any(f.startswith("ctrl 500") for sid, f in ln.frames):
+                continue                      # injected store failure
+            since, before, limit = int(kv.get("since", "0") or 0), int(kv.get("before", "0") or 0), int(kv.get("limit", "0") or 0)
+            lim = limit if 0 < limit < 100 else 100
+            vis = []
+            for mm in row["msgs"]:
+                if mm["x"]:
+                    continue
+                if since > 0 and mm["seq"] < since:
+                    continue
+                if before > 0 and mm["seq"] >= before:
+                    continue
+                if any(d["user"] == act[0] and d["lo"] <= mm["seq"] < d["hi"] for d in row["dellog"]):
+                    continue
+                vis.append(mm)
+            want = {mm["seq"]: mm for mm in sorted(vis, key=lambda x: -x["seq"])[:lim]}
+            got = {}
+            for sid, f in datas:
+                k = frame_kv(f)
+                q = int(k["seq"])
+                if q in got:
+                    out.append((i, f"C04 message {q} of {t} returned twice"))
+                got[q] = k
+                if sid != w[1]:
+                    out.append((i, f"C04 history of {t} was sent to {sid} instead of the requester"))
+            for q in sorted(set(got) - set(want)):
+                why = "it lies outside the requested range or limit"
+                mm = [x for x in row["msgs"] if x["seq"] == q]
+                if not mm:
+                    why = "no such message is stored"
+                elif mm[0]["x"]:
+                    why = "it was hard-deleted"
+                elif any(d["user"] == act[0] and d["lo"] <= q < d["hi"] for d in row["dellog"]):
+                    why = "the requester had deleted it"
+                out.append((i, f"C04 history of {t} for {act[0]} contains message {q} although {why}"))
+            for q in sorted(set(want) - set(got)):
+                out.append((i, f"C04 history of {t} for {act[0]} lacks message {q} which is stored, in range and not deleted for this user"))
+            for q in set(got) & set(want):
+                if got[q].get("content") != want[q]["content"] or got[q].get("from") != want[q]["sender"] or \
+                        got[q].get("head", "-").replace("=", "=") != want[q]["head"]:
+                    out.append((i, f"C04 message {q} of {t} returned as from={got[q].get('from')} head={got[q].get('head')} content={got[q].get('content')} "
+                                   f"but stored as from={want[q]['sender']} head={want[q]['head']} content={want[q]['content']}"))
+        if w[0] == "delmsg":
+            oks = [f for sid, f in ln.frames if sid == w[1] and f.startswith("ctrl 200 ")]
+            post = ln.store.get(t)
+            if not oks:
+                if post is not None and not ln.calls and (post["msgs"] != row["msgs"] or post["dellog"] != row["dellog"]):
+                    out.append((i, f"C04 refused delete request changed the messages or the deletion log of {t}"))
+                continue
+            if post is None:
+                continue
+            n = int(frame_kv(oks[0]).get("del", "0"))
+            if n != row["delid"] + 1:
+                out.append((i, f"C04 delete transaction numbered {n} after {row['delid']}"))
+            if not has(m, "D") and not has(m, "R"):
+                out.append((i, f"C04 delete request accepted from {act[0]} whose mode {m or 'none'} has neither D nor R"))
+            ids = req_ids(w[3], c["last"])
+            if ids is None:
+                out.append((i, f"C04 malformed range list `{w[3]}` accepted"))
+                continue
+            hard = kv.get("hard") == "1" and has(m, "D")
+            newrows = [d for d in post["dellog"] if d["id"] == n]
+            covered = set()
+            for d in newrows:
+                covered.update(range(d["lo"], d["hi"]))
+                want_user = "-" if hard else act[0]
+                if d["user"] != want_user:
+                    out.append((i, f"C04 deletion {n} recorded for {d['user']} instead of {want_user}"))
+            exist = set(range(0, c["last"] + 1))
+            if covered & exist != ids & exist:
+                out.append((i, f"C04 delete `{w[3]}` on {t} (last id {c['last']}) recorded ids {sorted(covered & exist)} instead of {sorted(ids & exist)}"))
+            pm = {mm["seq"]: mm for mm in row["msgs"]}
+            for mm in post["msgs"]:
+                old = pm.get(mm["seq"])
+                if old is None:
+                    continue
+                should = hard and mm["seq"] in ids and not old["x"]
+                if should and not (mm["x"] == n and mm["content"] == "-"):
+                    out.append((i, f"C04 hard delete of {mm['seq']} on {t} left the message (content {mm['content']}, marker {mm['x']})"))
+                if not should and mm != old:
+                    out.append((i, f"C04 delete `{w[3]}`{' hard' if hard else ''} on {t} altered message {mm['seq']} outside its scope"))
+    return out
+
+
 # ------------------------------------------------------------------------------------------------ C10 (group-topic part)
 
 def mon_C10(case):
@@ -834,7 +967,7 @@ def mon_C14(case):
     return out
 
 
-MONITORS = {"C01": mon_C01, "C02": mon_C02, "C03": mon_C03, "C06": mon_C06, "C07": mon_C07, "C08": mon_C08, "C09": mon_C09,
+MONITORS = {"C04": mon_C04, "C01": mon_C01, "C02": mon_C02, "C03": mon_C03, "C06": mon_C06, "C07": mon_C07, "C08": mon_C08, "C09": mon_C09,
             "C10": mon_C10, "C13": mon_C13, "C14": mon_C14}
 
 
